@@ -3,6 +3,7 @@
 from __future__ import annotations
 
 import logging
+import os
 import queue
 import signal
 import tempfile
@@ -998,6 +999,9 @@ class MarkovChainMonteCarloMethod:
             progress_bar_class = SequenceProgressBar
             sampling_stage_bar_class = LabelledSequenceProgressBar
         n_chain = len(init_states)
+        if n_process is None:
+            # as documented, use as many processes as there are CPUs
+            n_process = os.cpu_count() or 1
         n_trace_iter = n_warm_up_iter + n_main_iter if trace_warm_up else n_main_iter
         init_states = [
             _check_and_process_init_state(state, self.transitions)
